@@ -1101,4 +1101,21 @@ example :
 
 end PipelineV2
 
+
+/-! ## 8. the wild-safe byte classes, tied to the source -/
+
+/-- one class as `dnsLabelWildsafe` writes it: `"a-z"` for `c >= 'a' && c <= 'z'`, `"-"` for `c == '-'` -/
+def classAccepts (cls : String) (c : UInt8) : Bool :=
+  match cls.toList with
+  | [lo, '-', hi] => lo.toNat ≤ c.toNat && c.toNat ≤ hi.toNat
+  | [x] => c.toNat = x.toNat
+  | _ => false
+
+/-- The byte classes of `db.dnsLabelWildsafe`, re-extracted from the source on every run, accept
+exactly the bytes the model's `Name.wildsafeByte` accepts (all 256 bytes checked by the kernel). -/
+theorem wildsafe_classes_match :
+    ∀ n, n < 256 → Name.wildsafeByte n.toUInt8 =
+      Generated.db_wildsafe_classes.any (classAccepts · n.toUInt8) := by
+  decide +kernel
+
 end DnsVerif.Props.C01
